@@ -213,7 +213,7 @@ PROPS = {
     },
     'C14': {
         'v_units': ['fifo', 'rwall'],
-        'k_units': [],
+        'k_units': ['readchar'],
         'level': 'other',
         'explanation': (
             'Object-level kernel only: the byte queue of a pipe in the simulated system (yash-env/src/system/virtual/file_body.rs). '
@@ -239,7 +239,9 @@ PROPS = {
             'exactly the data, once, in order (on an error: a beginning of it), other descriptors untouched. read_all_to: what was in the '
             'buffer stays, what the system handed out is exactly what was appended (success or failure: nothing lost, nothing twice), '
             'success implies that a read reported the end of input on a non-empty buffer slice (the reserve arithmetic guarantees room). '
-            'The system side (Read / Write) is an assumed synchronous model; await points are dropped.'),
+            'The system side (Read / Write) is an assumed synchronous model; await points are dropped.'
+            ' Unit readchar (Kani, bounded; shared with C18): the byte-wise reader of the read built-in returns the same character and consumes '
+            'exactly its bytes under every chunking of the underlying reads (inputs of <= 4 bytes): a short read is never taken for the end of input.'),
         'trusted_base': ['Verus 0.2026.09.13 + Z3', 'vstd models of VecDeque::pop_front/len and of slice::iter_mut', '/verif/tools/vextract.py'],
         'assumptions': [
             'unit rwall: model traits Read / Write (synchronous, &mut self, ghost streams written / consumed / at_eof per descriptor); Concurrent<S> reduced to the wrapped system; TemporaryNonBlockingGuard replaced by a move of the reference (descriptor flags are not modelled); yield_for_read / yield_for_write assumed not to change what this task transferred; EAGAIN = EWOULDBLOCK = 11; assumed contracts of Vec::capacity / reserve / extend(repeat_n) and of reading into the tail of a Vec',
@@ -390,7 +392,7 @@ PROPS = {
     },
     'C18': {
         'v_units': ['lineread'],
-        'k_units': [],
+        'k_units': ['readchar'],
         'level': 'other',
         'explanation': (
             'Kernel only: the reader through which the shell takes its own input from a descriptor (yash-env/src/input/fd_reader_2.rs '
@@ -401,14 +403,19 @@ PROPS = {
             'returns, a run without a newline optionally ended by ONE newline - nothing after the first newline is consumed, on success and on '
             'a read error alike, so whatever follows the current line stays available to commands reading the same input; a line is returned '
             'without a newline only at the end of input; no other descriptor is read. Chunking cannot matter at this level because no read '
-            'can return more than the one byte asked for. NOT decided: that the lexer asks for a new line only when its buffer is exhausted '
+            'can return more than the one byte asked for. Kani (bounded) runs the real read_char of the read built-in '
+            '(yash-builtin/src/read/input.rs) on a scripted descriptor holding any byte string of <= 4 bytes before end of input, with every '
+            'read served by a symbolic number of bytes between 1 and what was asked for: the character returned is the decoding of the '
+            'shortest prefix that is a complete UTF-8 character whatever the chunking, exactly that prefix has been consumed (what follows stays '
+            'in the input), a truncated or invalid sequence is an error. NOT decided: that the lexer asks for a new line only when its buffer is exhausted '
             'and the read-eval loop runs each command before the next line is read (async parser / runner code), other readers of the same '
             'descriptor across processes, the echo/prompt decorators, the text conversion (lossy UTF-8, assumed).'),
-        'trusted_base': ['Verus 0.2026.09.13 + Z3', '/verif/tools/vextract.py'],
+        'trusted_base': ['Verus 0.2026.09.13 + Z3', 'Kani 0.68.0 + CBMC 6.11', '/verif/tools/vextract.py, /verif/tools/kunit.py'],
         'assumptions': [
             'model trait Read (synchronous, &mut self, ghost streams consumed / at_eof per descriptor): read fills a beginning of the buffer, never more than its length, 0 at end of input, nothing on error; await points dropped',
             'assumed contract of core::slice::from_mut (a one-element slice over the place); String::from_utf8(..).unwrap_or_else(lossy) is a helper with an uninterpreted result (lossy_text)',
             'Input::next_line of FdReader2 is checked as an inherent method with the same body (impl header replaced); Context and std::io::Error are placeholders',
+            'unit readchar (Kani, bounded): scripted system in the harness; one call of read_char; inputs of <= 4 bytes; core::str::from_utf8 is the oracle for a complete character',
         ],
     },
     'C10': {
